@@ -122,12 +122,64 @@ def race_violations(outs, prop):
 SIM_NOTE = ("Trusted base: Go 1.26.8 testing/synctest, the simulator (seeded scheduler, in-memory network, store/JWKS seam wrappers), the strict IdP model with "
             "std-lib JOSE, miniredis, the reference oracles. Evidence over sampled plans, not proof. Envoy, browsers, IdP, Redis server and Kubernetes are stubs.")
 
+def T(technique, level_text, note=""):
+    return {"technique": technique, "level_text": level_text, "level_note": SIM_NOTE + (" " + note if note else "")}
+
+
 MANIFEST_TEXT = {
-    "C03": {"technique": "deterministic simulation: seeded configurations x IdP behaviours x URLs, redirect-following browser, bounded-liveness oracle (step budget)",
-            "level_text": "Seeded exploration of the composed login flow (real loader, handler, stores, HTTP client against a strict IdP model) on a fake clock: every run must reach OK "
-                          "in exactly redirect/callback/OK with one authorization request, byte-identical return URL and the provider's tokens, and stay OK inside token lifetime. "
-                          "Exploration is the right level: the quantifier is a large product of configurations, provider shapes and URLs that is sampled, with the boolean core enumerated.",
-            "level_note": SIM_NOTE},
+    "C01": T("deterministic simulation with fault injection: seeded request/attacker/clock histories + systematic single and pair fault sweep over every store, token-endpoint and key-source call, crash-restart at seam calls; ledger-based justification oracle",
+             "Every OK verdict of every simulated run must be justified by ground truth: a session under the presented cookie whose ID token the provider's ledger issued and which is unexpired, or a "
+             "successful refresh exchange caused by this very check; any injected failure inside a check forbids OK. fault_enumeration: besides random faults, a scenario through every seam is recorded and "
+             "re-run once per seam call x fault kind (before/after effect) and for sampled pairs (all recorded singles; 40/400 pairs per scenario in quick/thorough).",
+             "Sites are I/O boundaries (store methods, token endpoint, JWKS lookup); faults inside jwx or net/http are represented by their observable result at the seam."),
+    "C02": T("deterministic simulation with a Byzantine identity provider (adversarial token grammar) + independent std-lib JOSE re-verification of every bound/stored/forwarded token",
+             "Histories mix honest and forged token answers on login and refresh paths; every token handed to SetTokenResponse, every token found in the store afterwards and every forwarded header is "
+             "re-verified without jwx (signature under the provider's keys, audience, login nonce, membership in the provider's ledger). Exploration over a 33-production grammar; decides acceptance only for the sampled grammar."),
+    "C03": T("deterministic simulation: seeded configurations x IdP behaviours x URLs, redirect-following browser, bounded-liveness oracle (step budget)",
+             "Seeded exploration of the composed login flow (real loader, handler, stores, HTTP client against a strict IdP model) on a fake clock: every run must reach OK in exactly redirect/callback/OK "
+             "with one authorization request, byte-identical return URL and the provider's tokens, and stay OK inside token lifetime. The boolean core of the configuration x provider product is enumerated by index, the rest drawn."),
+    "C04": T("deterministic simulation with a seeded scheduler: concurrent logins and crafted callbacks interleaved at store-call / token-endpoint granularity; strict RFC 6749/7636 monitor at the token endpoint",
+             "Every token request is judged against the session registry the monitor built from the redirects it saw (state, S256 challenge, redirect URI, client credentials of the session named by the cookie); "
+             "a completed login forbids any later exchange under that session. Exploration over schedules and attacker choices."),
+    "C05": T("deterministic simulation: histories presenting every class of session id; independent RFC 6265 Set-Cookie parser; store spy",
+             "Monitors on every response and store write: fresh never-seen session id on every login redirect, presented session destroyed, tokens only under issued ids, cookie attributes, logout expiry. Exploration."),
+    "C06": T("deterministic simulation of the disclosed input (the request instant): replay divergence, same-instant logins, time-window attacker with a fresh replica per candidate instant",
+             "Black-box on Check: identical simulated clock and inputs must still give different identifiers; k logins at one frozen instant must differ; an attacker who knows the request time to +-w ns and tries "
+             "every candidate instant must not reproduce the victim's identifiers. Exploration; claimed in part.",
+             "The static clause of the property (every code path in the shipped sources, call graph to an entropy source) is NOT decided: it is a static-analysis question outside this technique. "
+             "A generator with a hidden but small seed space is not detectable black-box."),
+    "C09": T("deterministic simulation with a seeded scheduler (uniform and priority policies): logout raced against 1-2 checks on the same session at store-call and token-endpoint granularity; fault injection on session removal",
+             "Verdicts are ordered against the completion of the logout response by global event sequence numbers; any check invoked after it, and any in-flight refresh finishing after it, must not be OK; "
+             "a failed removal must yield an error answer. Exploration over schedules; determinism self-test (GOMAXPROCS 1/4/16)."),
+    "C10": T("deterministic simulation on a fake clock: store-level histories against a timeout model (memory store, two Redis store instances on miniredis) and system-level probes through the start-up wiring, crash-restart with Redis",
+             "Reads on either side of each limit (limit +-2 s, fractions, multiples) for all (absolute, idle) pairs from an 8-value grid incl. 0; one second of granularity tolerated; definite vs possible uses tracked separately so that only what the statement promises is demanded. Exploration.",
+             "The replica is assembled by the same constructors in the same order as cmd/main.go (hand-mirrored, not generated from main.go): a sweeper registered as a NEW run.Group unit in main.go would not be seen."),
+    "C11": T("deterministic simulation over many token lifetimes against a provider with a refresh-token ledger (rotation, omitted members, key rollover, denial, forged answers, lost replies)",
+             "Every refresh exchange is checked against the ledger (most recently issued refresh token, well-formed grant, credentials); a successful exchange must yield OK with the merged result in headers and store, "
+             "a failed one must end the session and send the browser to login. Key rollover windows in which both outcomes are legitimate are not judged. Exploration."),
+    "C12": T("deterministic simulation: sequential refinement of memory and Redis stores against a plain-map model with Redis command faults and crashes between commands; concurrent memory-store histories checked for linearizability (porcupine)",
+             "Return values and complete ground-truth store content are compared with the model after every operation; interrupted Redis methods are judged with a narrow prefix-of-writes relaxation; "
+             "concurrent histories (statement-level pre-emption, also inside critical sections) must be linearizable. Exploration; porcupine Unknown is counted inconclusive, never reported."),
+    "C13": T("deterministic simulation: the redirect is the message to the next node; strict provider-side parser with an independent splitter/decoder judges every Location; byte-for-byte return URL",
+             "Configurations drawn for URL well-formedness (reserved, space, percent, non-ASCII characters in client ids, scopes, callback and authorization URIs with and without own query). Exploration.",
+             "The first clause is a function of (configuration, generated values); it is claimed because in the simulated protocol a malformed redirect stalls the multi-party run."),
+    "C14": T("deterministic simulation with fault injection: unique-marker secrets searched in every answer of fault-injecting, concurrent and refresh histories (raw, URL-decoded, base64-decoded)",
+             "Every secret the run creates (client secret, PKCE verifiers captured at the store seam, every token the provider's ledger issues) is a unique marker; no marker may occur in any denial/redirect; OK answers may add only the configured token headers. Exploration."),
+    "C15": T("deterministic simulation with malformed-peer fault kinds: hostile CheckRequests, token-endpoint/JWKS/discovery bodies from a JSON grammar, claims of unexpected type, lying and corrupted store; recover() oracle",
+             "A panic anywhere under Check is the violation (no recovery interceptor exists in the service); verdicts must be well-formed. Exploration over an enumerated grammar (each production indexed by the plan index).",
+             "Coverage-guided mutation is a different technique and is not used; requests enter through ExtAuthZFilter.Check, not through the gRPC server. A panic in a background goroutine of a dependency would surface as a worker crash (exit 2), not as a replayable violation."),
+    "C16": T("deterministic simulation in a -race build: ThreadSanitizer under a seeded, serial, TSan-transparent (sleep-based) schedule with statement-level yields and simulator mutexes; completion/deadlock oracle",
+             "4-12 concurrent tasks of every request kind plus Secret reconcile, CA-file rewrite and TLS-config load; race reports are canonicalised to the pair of innermost authservice functions; a planted-race positive control and "
+             "a locked negative control run at the start of every worker. Exploration over schedules.",
+             "TSan keeps a bounded access history; the token-endpoint model uses a mutex, which can order some accesses of different tasks (schedule-dependent, mitigated by exploring many schedules). JWKS background refresh is not overlapped with checks."),
+    "C18": T("deterministic simulation: 2-3 filters over four store topologies; sessions of one filter presented to the others; per-filter limit probes on the fake clock",
+             "OK verdicts are attributed to the filter whose redirect issued the session; forwarded tokens must verify under the judging filter's keys and audience; token requests must reach the judging filter's provider with its credentials; "
+             "each filter's own limits are probed 2 s before/after. Exploration."),
+    "C19": T("deterministic simulation: the simulator plays the Kubernetes API server (fake client) and manager, delivering reconciles with duplication, delay and reordering, interleaved with logins and refreshes",
+             "Reference map secret name -> last non-empty value at a completed reconcile; judged at the token endpoint (both grant types) and on every filter's configuration after each reconcile; cross-namespace references must be refused at start-up. Exploration.",
+             "The namespace and client are injected through an export shim instead of PreRun's in-cluster discovery; loadSecrets and Reconcile are the real code."),
+    "C20": T("deterministic simulation: real TLS handshakes over in-memory connections against a test PKI, real TLS pool + file watcher on the fake clock, CA-file rewrite/torn/delete faults, concurrent first loads in the instrumented build",
+             "Independent expectation from crypto/x509 and the file content as of the last poll; probes between a rewrite and the next poll, or at a poll instant, are not judged; superseded watchers must stop; identical settings must share one configuration. Exploration."),
 }
 
 PENDING = "check not built yet in this round (planned, see DESIGN.md §6)"
